@@ -53,6 +53,9 @@ def solve(cond, timeout_ms, seed):
 def model_values(model, summ):
     vals = []
     for i, inp in enumerate(summ.inputs):
+        if summ.kinds[i] == "Str":
+            vals.append(0x61)
+            continue
         v = model.eval(inp.e, model_completion=True)
         vals.append(K.value_bits(summ.kinds[i], v))
     return vals
